@@ -11,8 +11,11 @@ Open Scope Z_scope.
 (* ------------------------------------------------------------------------- *)
 (** * Non-empty connection IDs *)
 
-(** the frame parser rejects zero-length connection IDs in NEW_CONNECTION_ID; the server
-    never chooses a zero-length ID when the client offered a non-zero one *)
+(** the frame parser rejects zero-length connection IDs in NEW_CONNECTION_ID and the preferred
+    address carries a non-empty one. For ChangeInitialConnID (the server's source connection ID
+    from its first packet / Retry) non-emptiness is an ASSUMPTION about the server, not a
+    protocol fact: a server may choose a zero-length source ID; that connection is then covered by
+    [zero_length_refused], not by the theorems under [op_okc]. *)
 Definition cid_ok (o : mop) : Prop :=
   match o with
   | MAdd _ _ c _ _ => c <> []
